@@ -367,6 +367,26 @@ def rule_from_valid(crate, prop, tier):
                     good = (N[0] == "call" and N[1] == ORD) or N[0] in ("len", "mem")
                     o.check(good and _mentions(N, ("arg", 1)) or _refers_arg1(N), pretty, "order-preserved",
                             "the result is not created with the source's order", ev["span"])
+                # what is returned is the digraph that was created with the source's order and filled: no exit hands back
+                # another value (an early `return Self::trivial()` for an arcless source loses the order)
+                rets_ = [ev for ev in an.events if ev["k"] == "return"]
+                for rt in rets_:
+
+                    def phi_ins_(t, seen=()):
+                        if not (t[0] == "phi" and len(t) == 3) or t in seen:
+                            return [t]
+                        return [y for x in an.phi_inputs(t[1], t[2]) for y in phi_ins_(x, seen + (t,))]
+                    for t in phi_ins_(rt["val"]):
+                        key_ = t[1] if t[0] == "call" else t[2] if t[0] == "site" else None
+                        # another generator's result (trivial(), complete(n), ..) or a default value; a fold / try_fold / helper
+                        # that carries the digraph created by empty(order) is judged by the clauses below
+                        if isinstance(key_, str) and key_ != "graaf::gen::empty::Empty::empty" and \
+                                (key_.startswith("graaf::gen::") or key_ == "core::default::Default::default"):
+                            o.check(False, pretty, "returns-the-filled-digraph", "an exit of the conversion returns the result of %s "
+                                    "instead of the digraph created with the source's order and filled from its arcs (sources of "
+                                    "that shape lose their vertex set)" % (t[1] if t[0] == "call" else t[2]).split("::")[-1], rt["span"])
+                        elif t[0] == "mem" and t[1].startswith("L"):
+                            o.check(True, pretty, "returns-the-filled-digraph", "")
                 # every arc of the source is inserted: the loop / for_each over source.arcs() is a complete scan
                 if o.check(len(streams) == 1, pretty, "arcs-loop", "the conversion does not loop over the source's arcs exactly once"):
                     st = streams[0]
